@@ -1,10 +1,21 @@
 import PdeVerif.Model.BC
 import PdeVerif.Model.BCParse
 import PdeVerif.Lemmas.Basic
+import Mathlib.Tactic.LinearCombination
 /-
 C02 - boundary conditions hold exactly at the discrete boundary.
 Theorems about `PdeVerif.BC` (model of pde/grids/boundaries/local.py and the compiled
-re-implementation in pde/backends/numba/_boundaries.py).
+re-implementation in pde/backends/numba/_boundaries.py) and `PdeVerif.BCParse` (axes.py, axis.py).
+
+* one face point: `*_exact`; the data `MixedBC` really returns: `vpMixedCode_*`, `robin_code_*`;
+  `robin_singular_unsatisfiable` (why the coefficient -2/dx cannot be imposed by any virtual point);
+* one face: `setGhost_*` (every class; `setGhost_robin_*` for the coefficients as the user gives
+  them: finite regular -> Robin equation, infinite or singular -> boundary value 0);
+* all faces: `setGhostAll_frame`, `setGhostAll_written`, `setGhostAll_perm`, and the end state
+  `setGhostAll_fixed`, **`setGhostAll_holds`** (the defining equation `HoldsAt` of every face in the
+  final array), `setGhostAll_dirichlet`, `setGhostAll_robin`, `setGhostAll_normal_untouched`;
+* specifications: precedence, unknown keys, the `{"low","high"}` / sequence / legacy formats,
+  errors instead of silent defaults, periodicity of every accepted result (`parse_periodicity_consistent`).
 -/
 namespace PdeVerif.BC
 open PdeVerif
@@ -31,6 +42,44 @@ theorem robin_exact (dx g b cell : K) (hdx : dx ≠ 0) (hg : 2 + dx * g ≠ 0) :
 /-- the non-finite branch (`γ = ∞`) imposes the value 0 -/
 theorem robin_infinite_is_dirichlet0 (cell : K) : (ghost1 (vpMixedInf : K × K) cell + cell) / 2 = 0 := by
   unfold ghost1 vpMixedInf; push_cast; ring
+
+/-- a finite coefficient with `2 + dx γ = 0` is *singular*: the discrete Robin expression does not
+depend on the virtual point at all (it equals `γ * cell`), so no virtual point can impose
+`∂ₙc + γ c = β` unless `γ * cell = β` happens to hold -/
+theorem robin_singular_unsatisfiable (dx g cell ghost : K) (hdx : dx ≠ 0) (hs : 2 + dx * g = 0) :
+    (ghost - cell) / dx + g * ((ghost + cell) / 2) = g * cell := by
+  have hg : g = -2 / dx := by field_simp; linear_combination hs
+  subst hg; field_simp; ring
+
+section code
+variable [DecidableEq K]
+
+/-- `MixedBC.get_virtual_point_data` takes the documented formula for every finite, regular `γ` -/
+theorem vpMixedCode_finite (dx g b : K) (h : 2 + dx * g ≠ 0) :
+    vpMixedCode dx (.fin g) b = vpMixed dx g b := by
+  simp [vpMixedCode, vpMixedSel, Coef.nonFinite, Coef.val, h]
+
+/-- `γ = ±∞` takes the corrected branch `(0, -1)` -/
+theorem vpMixedCode_inf (dx b : K) : vpMixedCode dx (.inf : Coef K) b = vpMixedInf := by
+  simp [vpMixedCode, vpMixedSel, Coef.nonFinite]
+
+/-- a singular finite `γ` also takes the corrected branch `(0, -1)`: the code then imposes the
+value 0 instead of the (unsatisfiable, see `robin_singular_unsatisfiable`) Robin condition -/
+theorem vpMixedCode_singular (dx g b : K) (h : 2 + dx * g = 0) :
+    vpMixedCode dx (.fin g) b = vpMixedInf := by
+  simp [vpMixedCode, vpMixedSel, Coef.nonFinite, h]
+
+/-- the Robin equation holds for every finite regular coefficient of the code's own data -/
+theorem robin_code_exact (dx g b cell : K) (hdx : dx ≠ 0) (hg : 2 + dx * g ≠ 0) :
+    (ghost1 (vpMixedCode dx (.fin g) b) cell - cell) / dx
+      + g * ((ghost1 (vpMixedCode dx (.fin g) b) cell + cell) / 2) = b := by
+  rw [vpMixedCode_finite dx g b hg]; exact robin_exact dx g b cell hdx hg
+
+/-- an infinite coefficient imposes the value 0 (the limit `γ → ∞` of `∂ₙc/γ + c = β/γ`) -/
+theorem robin_code_infinite (dx b cell : K) :
+    (ghost1 (vpMixedCode dx (.inf : Coef K) b) cell + cell) / 2 = 0 := by
+  rw [vpMixedCode_inf]; exact robin_infinite_is_dirichlet0 cell
+end code
 
 /-- `γ = 0` is the derivative condition -/
 theorem robin_zero_is_neumann (dx b cell : K) :
@@ -211,11 +260,11 @@ theorem setGhost_neumann (f : Face) (dx : K) (hdx : dx ≠ 0) (d : List Int → 
   unfold setGhost; simp only [hw, ↓reduceIte, ghostValue]
   exact neumann_exact _ _ _ hdx
 
-/-- Robin condition on the whole face -/
-theorem setGhost_mixed (f : Face) (dx : K) (hdx : dx ≠ 0) (g b : List Int → K) (a : List Int → K)
-    (idx : List Int) (hw : f.writes idx = true) (hf : f.WF)
-    (hg : 2 + dx * g (f.valueIdx idx) ≠ 0) :
-    let a' := setGhost f dx (.mixed g b) a
+/-- Robin condition on the whole face, at the points where the code takes the regular branch -/
+theorem setGhost_mixed (f : Face) (dx : K) (hdx : dx ≠ 0) (nf : List Int → Bool) (g b : List Int → K)
+    (a : List Int → K) (idx : List Int) (hw : f.writes idx = true) (hf : f.WF)
+    (hnf : nf (f.valueIdx idx) = false) (hg : 2 + dx * g (f.valueIdx idx) ≠ 0) :
+    let a' := setGhost f dx (.mixed nf g b) a
     let cell := a' (f.at idx (nearIdx f.N f.side))
     (a' idx - cell) / dx + g (f.valueIdx idx) * ((a' idx + cell) / 2) = b (f.valueIdx idx) := by
   intro a' cell
@@ -223,10 +272,56 @@ theorem setGhost_mixed (f : Face) (dx : K) (hdx : dx ≠ 0) (g b : List Int → 
   have hc : cell = a (f.at idx (nearIdx f.N f.side)) := setGhost_frame _ _ _ _ _ hnear
   have hg' : a' idx = ghost1 (vpMixed dx (g (f.valueIdx idx)) (b (f.valueIdx idx)))
       (a (f.at idx (nearIdx f.N f.side))) := by
-    show setGhost f dx (.mixed g b) a idx = _
-    unfold setGhost; simp only [hw, ↓reduceIte, ghostValue]
+    show setGhost f dx (.mixed nf g b) a idx = _
+    unfold setGhost; simp only [hw, ↓reduceIte, ghostValue, vpMixedSel, hnf, Bool.false_eq_true]
   rw [hc, hg']
   exact robin_exact _ _ _ _ hdx hg
+
+/-- at the points where the code takes the corrected branch the boundary value 0 is imposed -/
+theorem setGhost_mixed_nonfinite (f : Face) (dx : K) (nf : List Int → Bool) (g b : List Int → K)
+    (a : List Int → K) (idx : List Int) (hw : f.writes idx = true) (hf : f.WF)
+    (hnf : nf (f.valueIdx idx) = true) :
+    let a' := setGhost f dx (.mixed nf g b) a
+    (a' idx + a' (f.at idx (nearIdx f.N f.side))) / 2 = 0 := by
+  intro a'
+  have hnear := f.not_writes_at idx _ hw hf (nearIdx_valid f.N f.side hf.2)
+  show (setGhost f dx (.mixed nf g b) a idx + setGhost f dx (.mixed nf g b) a _) / 2 = _
+  rw [setGhost_frame _ _ _ _ _ hnear]
+  unfold setGhost; simp only [hw, ↓reduceIte, ghostValue, vpMixedSel, hnf]
+  exact robin_infinite_is_dirichlet0 _
+
+/-- **`MixedBC` as the code decides it** (`Cond.robin`): every finite regular coefficient gives
+the Robin equation ... -/
+theorem setGhost_robin_finite [DecidableEq K] (f : Face) (dx : K) (hdx : dx ≠ 0)
+    (g : List Int → Coef K) (b : List Int → K) (a : List Int → K) (idx : List Int)
+    (hw : f.writes idx = true) (hf : f.WF) (γ : K) (hγ : g (f.valueIdx idx) = .fin γ)
+    (hreg : 2 + dx * γ ≠ 0) :
+    let a' := setGhost f dx (Cond.robin dx g b) a
+    let cell := a' (f.at idx (nearIdx f.N f.side))
+    (a' idx - cell) / dx + γ * ((a' idx + cell) / 2) = b (f.valueIdx idx) := by
+  have := setGhost_mixed f dx hdx (fun vi => (g vi).nonFinite dx) (fun vi => (g vi).val) b a idx hw hf
+    (by simp [hγ, Coef.nonFinite, hreg]) (by simpa [hγ, Coef.val] using hreg)
+  simpa [Cond.robin, hγ, Coef.val] using this
+
+/-- ... and an infinite coefficient gives the boundary value 0, at each point separately -/
+theorem setGhost_robin_infinite [DecidableEq K] (f : Face) (dx : K)
+    (g : List Int → Coef K) (b : List Int → K) (a : List Int → K) (idx : List Int)
+    (hw : f.writes idx = true) (hf : f.WF) (hγ : g (f.valueIdx idx) = .inf) :
+    let a' := setGhost f dx (Cond.robin dx g b) a
+    (a' idx + a' (f.at idx (nearIdx f.N f.side))) / 2 = 0 :=
+  setGhost_mixed_nonfinite f dx (fun vi => (g vi).nonFinite dx) (fun vi => (g vi).val) b a idx hw hf
+    (by simp [hγ, Coef.nonFinite])
+
+/-- a singular finite coefficient makes the code impose the boundary value 0 as well (the
+requested Robin condition cannot be imposed: `robin_singular_unsatisfiable`) -/
+theorem setGhost_robin_singular [DecidableEq K] (f : Face) (dx : K)
+    (g : List Int → Coef K) (b : List Int → K) (a : List Int → K) (idx : List Int)
+    (hw : f.writes idx = true) (hf : f.WF) (γ : K) (hγ : g (f.valueIdx idx) = .fin γ)
+    (hs : 2 + dx * γ = 0) :
+    let a' := setGhost f dx (Cond.robin dx g b) a
+    (a' idx + a' (f.at idx (nearIdx f.N f.side))) / 2 = 0 := by
+  exact setGhost_mixed_nonfinite f dx (fun vi => (g vi).nonFinite dx) (fun vi => (g vi).val) b a idx hw hf
+    (by simp [hγ, Coef.nonFinite, hs])
 
 /-- curvature condition on the whole face (needs two cells, the case the code rejects otherwise) -/
 theorem setGhost_curvature (f : Face) (dx : K) (hdx : dx ≠ 0) (k : List Int → K) (a : List Int → K)
@@ -277,6 +372,27 @@ theorem setGhost_exprDerivative (f : Face) (dx : K) (hdx : dx ≠ 0) (v : List I
   rw [setGhost_frame _ _ _ _ _ hnear]
   unfold setGhost; simp only [hw, ↓reduceIte, ghostValue]
   exact exprDerivative_exact _ _ _ hdx
+
+theorem setGhost_exprMixed (f : Face) (dx : K) (hdx : dx ≠ 0) (g b : List Int → K)
+    (a : List Int → K) (idx : List Int) (hw : f.writes idx = true) (hf : f.WF)
+    (hg : g (f.valueIdx idx) * dx + 2 ≠ 0) :
+    let a' := setGhost f dx (.exprMixed g b) a
+    let cell := a' (f.at idx (nearIdx f.N f.side))
+    (a' idx - cell) / dx + g (f.valueIdx idx) * ((a' idx + cell) / 2) = b (f.valueIdx idx) := by
+  intro a' cell
+  have hnear := f.not_writes_at idx _ hw hf (nearIdx_valid f.N f.side hf.2)
+  have hc : cell = a (f.at idx (nearIdx f.N f.side)) := setGhost_frame _ _ _ _ _ hnear
+  have hg' : a' idx = exprMixed dx (g (f.valueIdx idx)) (b (f.valueIdx idx))
+      (a (f.at idx (nearIdx f.N f.side))) := by
+    show setGhost f dx (.exprMixed g b) a idx = _
+    unfold setGhost; simp only [hw, ↓reduceIte, ghostValue]
+  rw [hc, hg']
+  exact exprMixed_exact _ _ _ _ hdx hg
+
+/-- the expression target `mixed` divides by zero exactly at the singular coefficients -/
+theorem divByZero_iff [DecidableEq K] (f : Face) (dx : K) (g b : List Int → K) (idx : List Int) :
+    divByZero f dx (.exprMixed g b) idx = true ↔ g (f.valueIdx idx) * dx + 2 = 0 := by
+  simp [divByZero]
 
 /-! ### all faces together: the order of the faces is irrelevant -/
 
@@ -405,6 +521,135 @@ theorem setGhostAll_perm (faces faces' : List (Face × K × Cond K)) (hp : faces
     rw [setGhostAll_frame faces a idx h1,
       setGhostAll_frame faces' a idx (fun fc hfc => h1 fc (hp.mem_iff.mpr hfc))]
 
+/-! ### the end state: after `setGhostAll` every face satisfies its defining equation -/
+
+/-- the defining equation of condition `c` at the ghost entry `idx` of face `f`, read off the
+padded array `A` (the statement of the property for one face point):
+value `(ghost+cell)/2 = v`, derivative `(ghost-cell)/dx = d`, Robin `∂ₙc + γ c = β` (value 0 where
+the coefficient is infinite/singular, i.e. where the code takes the corrected branch), curvature
+`(ghost - 2 c₁ + c₂)/dx² = k`, periodic `ghost = ± opposite cell` -/
+def HoldsAt (f : Face) (dx : K) (c : Cond K) (A : List Int → K) (idx : List Int) : Prop :=
+  let vi := f.valueIdx idx
+  let ghost := A idx
+  let cell := A (f.at idx (nearIdx f.N f.side))
+  match c with
+  | .dirichlet v => (ghost + cell) / 2 = v vi
+  | .neumann d => (ghost - cell) / dx = d vi
+  | .mixed nf g b =>
+    if nf vi then (ghost + cell) / 2 = 0
+    else (ghost - cell) / dx + g vi * ((ghost + cell) / 2) = b vi
+  | .curvature k => (ghost - 2 * cell + A (f.at idx (near2Idx f.N f.side))) / (dx * dx) = k vi
+  | .periodic flip => ghost = (if flip then -1 else 1) * A (f.at idx (oppIdx f.N f.side))
+  | .exprValue v => (ghost + cell) / 2 = v vi
+  | .exprDerivative v => (ghost - cell) / dx = v vi
+  | .exprMixed g b => (ghost - cell) / dx + g vi * ((ghost + cell) / 2) = b vi
+
+/-- the coefficients for which the Robin equation determines the virtual point -/
+def RegularAt (f : Face) (dx : K) (c : Cond K) (idx : List Int) : Prop :=
+  match c with
+  | .mixed nf g _ => nf (f.valueIdx idx) = false → 2 + dx * g (f.valueIdx idx) ≠ 0
+  | .exprMixed g _ => g (f.valueIdx idx) * dx + 2 ≠ 0
+  | _ => True
+
+/-- an array whose ghost entry equals the value the face computes *from that same array*
+satisfies the defining equation -/
+theorem holdsAt_of_fixed (f : Face) (dx : K) (hdx : dx ≠ 0) (c : Cond K) (A : List Int → K)
+    (idx : List Int) (hreg : RegularAt f dx c idx) (hfix : A idx = ghostValue f dx c A idx) :
+    HoldsAt f dx c A idx := by
+  cases c with
+  | dirichlet v => simp only [HoldsAt]; rw [hfix]; exact dirichlet_exact _ _
+  | neumann d => simp only [HoldsAt]; rw [hfix]; exact neumann_exact _ _ _ hdx
+  | mixed nf g b =>
+    simp only [HoldsAt]
+    by_cases hnf : nf (f.valueIdx idx) = true
+    · rw [if_pos hnf, hfix]
+      simp only [ghostValue, vpMixedSel, hnf, ↓reduceIte]
+      exact robin_infinite_is_dirichlet0 _
+    · have hnf' : nf (f.valueIdx idx) = false := by simpa using hnf
+      rw [if_neg hnf, hfix]
+      simp only [ghostValue, vpMixedSel, hnf', Bool.false_eq_true, ↓reduceIte]
+      exact robin_exact _ _ _ _ hdx (hreg hnf')
+  | curvature k => simp only [HoldsAt]; rw [hfix]; exact curvature_exact _ _ _ _ hdx
+  | periodic flip =>
+    simp only [HoldsAt]; rw [hfix]
+    cases flip <;> simp [ghostValue, ghost1, vpPeriodic]
+  | exprValue v => simp only [HoldsAt]; rw [hfix]; exact exprValue_exact _ _
+  | exprDerivative v => simp only [HoldsAt]; rw [hfix]; exact exprDerivative_exact _ _ _ hdx
+  | exprMixed g b => simp only [HoldsAt]; rw [hfix]; exact exprMixed_exact _ _ _ _ hdx hreg
+
+/-- **the final array is a fixed point of every face**: each written entry equals the value its
+face computes from the *final* array (no face disturbs what another face - or itself - reads) -/
+theorem setGhostAll_fixed (faces : List (Face × K × Cond K)) (hc : Compatible faces)
+    (a : List Int → K) (idx : List Int) (fc : Face × K × Cond K) (hfc : fc ∈ faces)
+    (hw : fc.1.writes idx = true) :
+    setGhostAll faces a idx = ghostValue fc.1 fc.2.1 fc.2.2 (setGhostAll faces a) idx := by
+  rw [setGhostAll_written faces hc a idx fc hfc hw]
+  apply ghostValue_congr _ _ _ _ _ _ hw (hc.wf fc hfc) (hc.curv fc hfc)
+  intro cc h1 h2
+  symm
+  apply setGhostAll_frame
+  intro gc hgc
+  obtain ⟨hs, hr⟩ := hc.same gc hgc fc hfc
+  exact Face.not_writes_at_other gc.1 fc.1 idx cc hs hr (hc.wf gc hgc) (hc.wf fc hfc) hw ⟨h1, h2⟩
+
+/-- **C02, composed over all faces**: after `setGhostAll` (the model of
+`BoundariesList.set_ghost_cells` and of the compiled setter) the defining equation of every
+face's condition holds at every point of that face, in the final array, for any compatible list
+of faces, any field contents and any values -/
+theorem setGhostAll_holds (faces : List (Face × K × Cond K)) (hc : Compatible faces)
+    (a : List Int → K) (idx : List Int) (fc : Face × K × Cond K) (hfc : fc ∈ faces)
+    (hw : fc.1.writes idx = true) (hdx : fc.2.1 ≠ 0) (hreg : RegularAt fc.1 fc.2.1 fc.2.2 idx) :
+    HoldsAt fc.1 fc.2.1 fc.2.2 (setGhostAll faces a) idx :=
+  holdsAt_of_fixed fc.1 fc.2.1 hdx fc.2.2 _ idx hreg (setGhostAll_fixed faces hc a idx fc hfc hw)
+
+/-- the composed statement for the value condition, spelled out -/
+theorem setGhostAll_dirichlet (faces : List (Face × K × Cond K)) (hc : Compatible faces)
+    (a : List Int → K) (idx : List Int) (f : Face) (dx : K) (v : List Int → K)
+    (hfc : (f, dx, Cond.dirichlet v) ∈ faces) (hw : f.writes idx = true) (hdx : dx ≠ 0) :
+    (setGhostAll faces a idx + setGhostAll faces a (f.at idx (nearIdx f.N f.side))) / 2
+      = v (f.valueIdx idx) :=
+  setGhostAll_holds faces hc a idx (f, dx, .dirichlet v) hfc hw hdx trivial
+
+/-- the composed statement for `MixedBC` with the coefficients as the user gives them: the Robin
+equation at every finite regular coefficient, the value 0 at every infinite one -/
+theorem setGhostAll_robin [DecidableEq K] (faces : List (Face × K × Cond K)) (hc : Compatible faces)
+    (a : List Int → K) (idx : List Int) (f : Face) (dx : K) (g : List Int → Coef K)
+    (b : List Int → K) (hfc : (f, dx, Cond.robin dx g b) ∈ faces) (hw : f.writes idx = true)
+    (hdx : dx ≠ 0) :
+    let A := setGhostAll faces a
+    let cell := A (f.at idx (nearIdx f.N f.side))
+    (∀ γ, g (f.valueIdx idx) = .fin γ → 2 + dx * γ ≠ 0 →
+        (A idx - cell) / dx + γ * ((A idx + cell) / 2) = b (f.valueIdx idx)) ∧
+    (g (f.valueIdx idx) = .inf → (A idx + cell) / 2 = 0) := by
+  intro A cell
+  have hfix := setGhostAll_fixed faces hc a idx (f, dx, Cond.robin dx g b) hfc hw
+  constructor
+  · intro γ hγ hreg
+    have h := holdsAt_of_fixed f dx hdx (Cond.robin dx g b) A idx
+      (by simp [RegularAt, Cond.robin, hγ, Coef.val, hreg]) hfix
+    simpa [HoldsAt, Cond.robin, hγ, Coef.nonFinite, Coef.val, hreg] using h
+  · intro hγ
+    have h := holdsAt_of_fixed f dx hdx (Cond.robin dx g b) A idx
+      (by simp [RegularAt, Cond.robin, hγ, Coef.nonFinite]) hfix
+    simpa [HoldsAt, Cond.robin, hγ, Coef.nonFinite] using h
+
+/-- normal-only conditions, composed: a component whose last tensor index differs from the axis
+of every `normal` face, at an index that no non-normal face writes, keeps its value - ghost
+cells included -/
+theorem setGhostAll_normal_untouched (faces : List (Face × K × Cond K)) (a : List Int → K)
+    (idx : List Int)
+    (h : ∀ fc ∈ faces, (fc.1.normal = true ∧
+        (idx.take fc.1.rank).getD (fc.1.rank - 1) 0 ≠ (fc.1.axis : Int)) ∨ fc.1.writes idx = false) :
+    setGhostAll faces a idx = a idx := by
+  apply setGhostAll_frame
+  intro fc hfc
+  rcases h fc hfc with ⟨hn, hcomp⟩ | hw
+  · unfold Face.writes
+    have : ((idx.take fc.1.rank).getD (fc.1.rank - 1) 0 == (fc.1.axis : Int)) = false := by
+      simpa using hcomp
+    simp only [hn, this, Bool.not_true, Bool.false_or, Bool.and_false]
+  · exact hw
+
 end array
 
 /-! ### non-vacuity -/
@@ -418,30 +663,55 @@ example : setGhost ({ shape := [3], rank := 0, axis := 0, side := .lower, normal
     (1/2 : Rat) (.neumann (fun _ => 3)) (fun i => (i.getD 0 0 : Rat)) [0] = 5/2 := by
   decide +kernel
 
+/-- both faces of a 3-cell axis: value 3 below; above a Robin condition whose coefficient `-4` is
+singular for `dx = 1/2` (`2 + dx γ = 0`) -/
+def exFaces : List (Face × Rat × Cond Rat) :=
+  [({ shape := [3], rank := 0, axis := 0, side := .lower, normal := false }, 1/2,
+      .dirichlet (fun _ => 3)),
+   ({ shape := [3], rank := 0, axis := 0, side := .upper, normal := false }, 1/2,
+      Cond.robin (1/2) (fun _ => .fin (-4)) (fun _ => 1))]
+
+/-- the hypotheses of the composed theorems are satisfiable -/
+example : Compatible exFaces :=
+  ⟨by simp [exFaces], by simp [exFaces, Face.WF, Face.N], by simp [exFaces],
+   by simp [exFaces, Cond.robin]⟩
+example : setGhostAll exFaces (fun i => (i.getD 0 0 : Rat)) [0] = 5 := by decide +kernel
+/-- at the singular coefficient the code writes `-cell` (boundary value 0) -/
+example : setGhostAll exFaces (fun i => (i.getD 0 0 : Rat)) [4] = -3 := by decide +kernel
+/-- a regular negative coefficient (`γ = -2`, `dx = 1/2`, `β = 1`): ghost = 1 + 3*cell -/
+example : setGhost ({ shape := [3], rank := 0, axis := 0, side := .upper, normal := false } : Face)
+    (1/2 : Rat) (Cond.robin (1/2) (fun _ => .fin (-2)) (fun _ => 1)) (fun i => (i.getD 0 0 : Rat)) [4]
+    = 10 := by decide +kernel
+/-- an infinite coefficient -/
+example : setGhost ({ shape := [3], rank := 0, axis := 0, side := .upper, normal := false } : Face)
+    (1/2 : Rat) (Cond.robin (1/2) (fun _ => .inf) (fun _ => 1)) (fun i => (i.getD 0 0 : Rat)) [4]
+    = -3 := by decide +kernel
+
 end PdeVerif.BC
 
 /-! ## resolution of boundary-condition specifications -/
 namespace PdeVerif.BCParse
 
-/-- declarative precedence: named boundary > `axis-`/`axis+` > `axis` > `*` -/
-def pick (g : GridNames) (d : Data) (ax : Nat) (upper : Bool) : Option Spec :=
+/-- declarative precedence: named boundary > `axis-`/`axis+` > `axis` > `*`
+(`get` skips missing keys and falsy values, the wildcard is taken as it is) -/
+def pick (g : GridNames) (d : Data) (ax : Nat) (upper : Bool) : Option Entry :=
   let axName := g.axes.getD ax ""
   let names := g.sides.filter (fun e => e.2.1 == ax && e.2.2 == upper)
-  (names.reverse.findSome? (fun e => d.lookup e.1)) <|>
-    d.lookup (axName ++ (if upper then "+" else "-")) <|> d.lookup axName <|> d.lookup "*"
+  (names.reverse.findSome? (fun e => get d e.1)) <|>
+    get d (axName ++ (if upper then "+" else "-")) <|> get d axName <|> d.lookup "*"
 
-theorem foldl_override (d : Data) (names : List (String × Nat × Bool)) (init : Option Spec) :
-    names.foldl (fun acc e => d.lookup e.1 <|> acc) init
-      = ((names.reverse.findSome? (fun e => d.lookup e.1)) <|> init) := by
+theorem foldl_override (d : Data) (names : List (String × Nat × Bool)) (init : Option Entry) :
+    names.foldl (fun acc e => get d e.1 <|> acc) init
+      = ((names.reverse.findSome? (fun e => get d e.1)) <|> init) := by
   induction names generalizing init with
   | nil => simp
   | cons e es ih =>
     simp only [List.foldl_cons, List.reverse_cons, List.findSome?_append]
     rw [ih]
-    cases h1 : es.reverse.findSome? (fun e => d.lookup e.1) with
+    cases h1 : es.reverse.findSome? (fun e => get d e.1) with
     | some s => simp
     | none =>
-      cases h2 : d.lookup e.1 with
+      cases h2 : get d e.1 with
       | some s => simp [h2]
       | none => simp [h2]
 
@@ -452,6 +722,44 @@ theorem parse_most_specific_wins (g : GridNames) (d : Data) (ax : Nat) (upper : 
   unfold resolveSide pick
   simp only
   rw [foldl_override]
+
+/-- **keys the grid does not know are ignored** (an axis name of another grid, a misspelt side):
+adding such an item to the dictionary changes no side -/
+theorem unknown_key_ignored (g : GridNames) (d : Data) (ax : Nat) (upper : Bool) (k : String)
+    (e : Entry) (hstar : k ≠ "*") (hax : k ≠ g.axes.getD ax "")
+    (hside : k ≠ g.axes.getD ax "" ++ (if upper then "+" else "-"))
+    (hnames : ∀ s ∈ g.sides, s.1 ≠ k) :
+    resolveSide g ((k, e) :: d) ax upper = resolveSide g d ax upper := by
+  have hl : ∀ k', k' ≠ k → List.lookup k' ((k, e) :: d) = List.lookup k' d := by
+    intro k' hk
+    have hb : (k' == k) = false := by simpa using hk
+    simp [List.lookup_cons, hb]
+  have hg : ∀ k', k' ≠ k → get ((k, e) :: d) k' = get d k' := by
+    intro k' hk; unfold get; rw [hl k' hk]
+  unfold resolveSide
+  simp only
+  rw [hl "*" (Ne.symm hstar), hg _ (Ne.symm hax), hg _ (Ne.symm hside)]
+  generalize (get d (g.axes.getD ax "" ++ if upper = true then "+" else "-") <|>
+    get d (g.axes.getD ax "") <|> List.lookup "*" d) = init
+  have hsub : ∀ s ∈ g.sides.filter (fun e => e.2.1 == ax && e.2.2 == upper), s.1 ≠ k :=
+    fun s hs => hnames s (List.mem_of_mem_filter hs)
+  generalize g.sides.filter (fun e => e.2.1 == ax && e.2.2 == upper) = names at hsub
+  induction names generalizing init with
+  | nil => rfl
+  | cons s ss ih =>
+    simp only [List.foldl_cons]
+    rw [hg s.1 (hsub s List.mem_cons_self)]
+    exact ih _ (fun t ht => hsub t (List.mem_cons_of_mem _ ht))
+
+theorem sideBC_ok (per : Bool) (s : Option Spec) (r : Kind × Nat) (h : sideBC per s = .ok r) :
+    per = false := by
+  unfold sideBC at h
+  split at h
+  · split at h
+    · split_ifs at h with hp
+      simpa using hp
+    · cases h
+  · cases h
 
 theorem pairOf_ok (per : Bool) (lo hi : Option Spec) (r : AxisBC) (h : pairOf per lo hi = .ok r) :
     per = false ∧ ∃ l hh, r = .pair l hh := by
@@ -464,14 +772,106 @@ theorem pairOf_ok (per : Bool) (lo hi : Option Spec) (r : AxisBC) (h : pairOf pe
     | ok h' =>
       simp only [hl, hh] at h
       cases h
-      refine ⟨?_, l, h', rfl⟩
-      unfold sideBC at hl
-      split at hl
-      · split at hl
-        · split_ifs at hl with hp
-          simpa using hp
-        · cases hl
-      · cases hl
+      exact ⟨sideBC_ok per lo l hl, l, h', rfl⟩
+
+theorem lowHighBC_ok (per : Bool) (lo hi : Option Spec) (extra : Bool) (r : AxisBC)
+    (h : lowHighBC per lo hi extra = .ok r) :
+    per = false ∧ extra = false ∧ ∃ l hh, r = .pair l hh := by
+  unfold lowHighBC at h
+  cases lo with
+  | none => cases h
+  | some l =>
+    simp only at h
+    cases hl : sideBC per (some l) with
+    | error e => simp [hl] at h
+    | ok L =>
+      simp only [hl] at h
+      cases hi with
+      | none => cases h
+      | some hh =>
+        simp only at h
+        cases hh' : sideBC per (some hh) with
+        | error e => simp [hh'] at h
+        | ok H =>
+          simp only [hh'] at h
+          split_ifs at h with hx
+          cases h
+          exact ⟨sideBC_ok per _ L hl, by simpa using hx, L, H, rfl⟩
+
+/-- the `{"low": lo, "high": hi}` format denotes the pair of its two conditions -/
+theorem lowHigh_is_pair (per : Bool) (lo hi : Spec) :
+    entryBC per (.lowHigh (some lo) (some hi) false) = pairOf per (some lo) (some hi) := by
+  simp only [entryBC, lowHighBC, pairOf]
+  cases sideBC per (some lo) with
+  | error e => rfl
+  | ok L =>
+    cases sideBC per (some hi) with
+    | error e => rfl
+    | ok H => simp
+
+/-- a two-element sequence denotes the pair of its two conditions (a lone "periodic" is an error) -/
+theorem seq_is_pair (per : Bool) (lo hi : Spec) (h1 : lo ≠ .periodic) (h2 : hi ≠ .periodic) :
+    entryBC per (.seq [lo, hi]) = pairOf per (some lo) (some hi) := by
+  simp [entryBC, h1, h2]
+
+/-- **the three ways to write two different conditions for the two sides of an axis agree**:
+`{"x": {"low": A, "high": B}}`, `{"x": (A, B)}` and `{"x-": A, "x+": B}` -/
+theorem formats_agree (per : Bool) (A B : Spec) (hne : A ≠ B) (hA : A ≠ .periodic) (hB : B ≠ .periodic) :
+    axisOfSides per (some (.lowHigh (some A) (some B) false)) (some (.lowHigh (some A) (some B) false))
+      = axisOfSides per (some (.one A)) (some (.one B)) ∧
+    axisOfSides per (some (.seq [A, B])) (some (.seq [A, B]))
+      = axisOfSides per (some (.one A)) (some (.one B)) := by
+  have h1 : ¬ ((some (Entry.one A) : Option Entry) = some (.one B)) := by simpa using hne
+  have hpA : Entry.isPeriodic (some (.one A)) = false := by
+    cases A <;> simp_all [Entry.isPeriodic]
+  have hpB : Entry.isPeriodic (some (.one B)) = false := by
+    cases B <;> simp_all [Entry.isPeriodic]
+  have rhs : axisOfSides per (some (.one A)) (some (.one B)) = pairOf per (some A) (some B) := by
+    simp [axisOfSides, h1, hpA, hpB, Entry.asSide]
+  rw [rhs]
+  constructor
+  · simp only [axisOfSides, ↓reduceIte]
+    exact lowHigh_is_pair per A B
+  · simp only [axisOfSides, ↓reduceIte]
+    exact seq_is_pair per A B hA hB
+
+/-- a `{"low", "high"}` dictionary with a missing side or with left-over items is an error -/
+theorem lowHigh_incomplete_is_error (per : Bool) (lo hi : Option Spec) (extra : Bool)
+    (h : lo = none ∨ hi = none ∨ extra = true) : ∃ e, lowHighBC per lo hi extra = .error e := by
+  cases hr : lowHighBC per lo hi extra with
+  | error e => exact ⟨e, rfl⟩
+  | ok r =>
+    exfalso
+    unfold lowHighBC at hr
+    cases lo with
+    | none => cases hr
+    | some l =>
+      simp only at hr
+      cases hl : sideBC per (some l) with
+      | error e => simp [hl] at hr
+      | ok L =>
+        simp only [hl] at hr
+        cases hi with
+        | none => cases hr
+        | some hh =>
+          simp only at hr
+          cases hh' : sideBC per (some hh) with
+          | error e => simp [hh'] at hr
+          | ok H =>
+            simp only [hh'] at hr
+            rcases h with h | h | h
+            · cases h
+            · cases h
+            · simp [h] at hr
+
+/-- sequences of any other length are errors -/
+theorem seq_wrong_length_is_error (per : Bool) (l : List Spec) (h : l.length ≠ 2) :
+    entryBC per (.seq l) = .error .bcdata := by
+  match l, h with
+  | [], _ => rfl
+  | [_], _ => rfl
+  | [_, _], h => exact absurd rfl h
+  | _ :: _ :: _ :: _, _ => rfl
 
 /-- a side for which nothing at all is specified is an error, never a silent default -/
 theorem unspecified_is_error (per : Bool) (hi : Option Spec) : ∃ e, axisBC per none hi = .error e := by
@@ -483,33 +883,104 @@ theorem unspecified_is_error (per : Bool) (hi : Option Spec) : ∃ e, axisBC per
     · rw [if_pos h2]; exact ⟨_, rfl⟩
     · rw [if_neg h2]; exact ⟨.bcdata, by simp [pairOf, sideBC]⟩
 
+/-- the same for the sides resolved from a dictionary (whatever format the other side has) -/
+theorem unspecified_side_is_error (per : Bool) (other : Option Entry) :
+    (∃ e, axisOfSides per none other = .error e) ∧ (∃ e, axisOfSides per other none = .error e) := by
+  constructor
+  · unfold axisOfSides
+    by_cases h : (none : Option Entry) = other
+    · subst h; exact ⟨.bcdata, by simp⟩
+    · simp only [h, ↓reduceIte]
+      split_ifs
+      · exact ⟨_, rfl⟩
+      · exact ⟨.bcdata, by simp [pairOf, sideBC, Entry.asSide]⟩
+  · unfold axisOfSides
+    by_cases h : other = (none : Option Entry)
+    · subst h; exact ⟨.bcdata, by simp⟩
+    · simp only [h, ↓reduceIte]
+      split_ifs
+      · exact ⟨_, rfl⟩
+      · cases hl : sideBC per (Entry.asSide other) with
+        | error e => exact ⟨e, by simp [pairOf, hl]⟩
+        | ok L => exact ⟨.bcdata, by unfold pairOf; rw [hl]; simp [sideBC, Entry.asSide]⟩
+
 /-- `auto_periodic_<name>` is `periodic` on periodic axes and `<name>` otherwise -/
 theorem auto_periodic_resolves (per : Bool) (n : String) (v : Nat) :
     axisBC per (some (.auto n v)) (some (.auto n v)) =
       if per then .ok .periodic else axisBC false (some (.named n v)) (some (.named n v)) := by
   cases per <;> simp [axisBC, single]
 
-/-- whatever is accepted agrees with the periodicity of the grid axis -/
+def AxisBC.isPeriodic : AxisBC → Bool
+  | .periodic => true
+  | .antiperiodic => true
+  | .pair _ _ => false
+
+theorem single_consistent (per : Bool) (s : Option Spec) (r : AxisBC) (h : single per s = .ok r) :
+    per = r.isPeriodic := by
+  unfold single at h
+  split at h
+  · split_ifs at h with hp
+    cases h; simp [hp, AxisBC.isPeriodic]
+  · split_ifs at h with hp
+    cases h; simp [hp, AxisBC.isPeriodic]
+  · split_ifs at h with hp
+    · cases h; simp [hp, AxisBC.isPeriodic]
+    · obtain ⟨h1, l, hh, h2⟩ := pairOf_ok _ _ _ _ h
+      subst h2; simp [h1, AxisBC.isPeriodic]
+  · obtain ⟨h1, l, hh, h2⟩ := pairOf_ok _ _ _ _ h
+    subst h2; simp [h1, AxisBC.isPeriodic]
+
+theorem pairOf_consistent (per : Bool) (lo hi : Option Spec) (r : AxisBC)
+    (h : pairOf per lo hi = .ok r) : per = r.isPeriodic := by
+  obtain ⟨h1, l, hh, h2⟩ := pairOf_ok _ _ _ _ h
+  subst h2; simp [h1, AxisBC.isPeriodic]
+
+theorem axisBC_consistent (per : Bool) (lo hi : Option Spec) (r : AxisBC)
+    (h : axisBC per lo hi = .ok r) : per = r.isPeriodic := by
+  unfold axisBC at h
+  split_ifs at h
+  · exact single_consistent _ _ _ h
+  · exact pairOf_consistent _ _ _ _ h
+
+theorem lowHighBC_consistent (per : Bool) (lo hi : Option Spec) (extra : Bool) (r : AxisBC)
+    (h : lowHighBC per lo hi extra = .ok r) : per = r.isPeriodic := by
+  obtain ⟨h1, _, l, hh, h2⟩ := lowHighBC_ok _ _ _ _ _ h
+  subst h2; simp [h1, AxisBC.isPeriodic]
+
+theorem entryBC_consistent (per : Bool) (e : Entry) (r : AxisBC) (h : entryBC per e = .ok r) :
+    per = r.isPeriodic := by
+  unfold entryBC at h
+  split at h
+  · exact single_consistent _ _ _ h
+  · exact lowHighBC_consistent _ _ _ _ _ h
+  · split_ifs at h
+    exact pairOf_consistent _ _ _ _ h
+  · cases h
+
+theorem axisOfSides_consistent (per : Bool) (lo hi : Option Entry) (r : AxisBC)
+    (h : axisOfSides per lo hi = .ok r) : per = r.isPeriodic := by
+  unfold axisOfSides at h
+  split_ifs at h
+  · split at h
+    · cases h
+    · exact entryBC_consistent _ _ _ h
+  · exact pairOf_consistent _ _ _ _ h
+
+theorem axisOfData_consistent (per : Bool) (e : Entry) (r : AxisBC) (h : axisOfData per e = .ok r) :
+    per = r.isPeriodic := by
+  unfold axisOfData at h
+  split at h
+  · split_ifs at h
+    · exact single_consistent _ _ _ h
+    · exact entryBC_consistent _ _ _ h
+  · exact entryBC_consistent _ _ _ h
+
+/-- whatever is accepted for an axis agrees with the periodicity of the grid axis -/
 theorem periodicity_consistent (per : Bool) (lo hi : Option Spec) (r : AxisBC)
     (h : axisBC per lo hi = .ok r) :
     (per = true ↔ (r = .periodic ∨ r = .antiperiodic)) := by
-  have frompair : ∀ lo hi, pairOf per lo hi = .ok r → (per = true ↔ (r = .periodic ∨ r = .antiperiodic)) := by
-    intro lo hi hp
-    obtain ⟨h1, l, hh, h2⟩ := pairOf_ok per lo hi r hp
-    subst h2; simp [h1]
-  unfold axisBC at h
-  split_ifs at h with h1 h2
-  · unfold single at h
-    split at h
-    · split_ifs at h with hp
-      cases h; simp [hp]
-    · split_ifs at h with hp
-      cases h; simp [hp]
-    · split_ifs at h with hp
-      · cases h; simp [hp]
-      · exact frompair _ _ h
-    · exact frompair _ _ h
-  · exact frompair _ _ h
+  have := axisBC_consistent per lo hi r h
+  cases r <;> simp_all [AxisBC.isPeriodic]
 
 theorem mapM_except_length {α β ε : Type} (f : α → Except ε β) (l : List α) (r : List β)
     (h : l.mapM f = .ok r) : r.length = l.length := by
@@ -527,6 +998,27 @@ theorem mapM_except_length {α β ε : Type} (f : α → Except ε β) (l : List
         cases h
         simp [ih ys hxs]
 
+theorem mapM_except_getElem {α β ε : Type} (f : α → Except ε β) (l : List α) (r : List β)
+    (h : l.mapM f = .ok r) (i : Nat) (hi : i < l.length) :
+    ∃ y, f l[i] = .ok y ∧ r[i]? = some y := by
+  induction l generalizing r i with
+  | nil => simp at hi
+  | cons x xs ih =>
+    rw [List.mapM_cons] at h
+    cases hx : f x with
+    | error e => simp [hx, bind, Except.bind] at h
+    | ok y =>
+      cases hxs : xs.mapM f with
+      | error e => simp [hx, hxs, bind, Except.bind] at h
+      | ok ys =>
+        simp only [hx, hxs, bind, Except.bind, pure, Except.pure] at h
+        cases h
+        cases i with
+        | zero => exact ⟨y, by simpa using hx, by simp⟩
+        | succ j =>
+          obtain ⟨z, hz1, hz2⟩ := ih ys hxs j (by simpa using hi)
+          exact ⟨z, by simpa using hz1, by simpa using hz2⟩
+
 /-- a successful parse yields exactly one result per axis -/
 theorem parse_length (g : GridNames) (t : Top) (r : List AxisBC) (h : parse g t = .ok r) :
     r.length = g.axes.length := by
@@ -536,12 +1028,71 @@ theorem parse_length (g : GridNames) (t : Top) (r : List AxisBC) (h : parse g t 
     simp only at h
     have := mapM_except_length _ _ _ h
     simpa using this
+  | lowHigh lo hi extra =>
+    simp only at h
+    have := mapM_except_length _ _ _ h
+    simpa using this
   | dict d =>
     simp only [bind, Except.bind] at h
     split at h
     · cases h
     · have := mapM_except_length _ _ _ h
       simpa using this
+  | list l =>
+    simp only at h
+    split_ifs at h with h1 h2
+    · have := mapM_except_length _ _ _ h
+      simpa using this
+    · split at h
+      · simp only [bind, Except.bind, pure, Except.pure] at h
+        split at h
+        · cases h
+        · cases h; simp [h2.1]
+      · cases h
+
+/-- **whatever format is used, every accepted specification agrees with the periodicity of the
+grid on every axis**: axis `ax` of the result is (anti-)periodic iff the grid axis is periodic -/
+theorem parse_periodicity_consistent (g : GridNames) (t : Top) (r : List AxisBC)
+    (h : parse g t = .ok r) (ax : Nat) (hax : ax < g.axes.length) :
+    ∃ b, r[ax]? = some b ∧ g.periodic.getD ax false = b.isPeriodic := by
+  unfold parse at h
+  cases t with
+  | all s =>
+    simp only at h
+    obtain ⟨y, hy1, hy2⟩ := mapM_except_getElem _ _ _ h ax (by simpa using hax)
+    simp only [List.getElem_range] at hy1
+    exact ⟨y, hy2, axisBC_consistent _ _ _ _ hy1⟩
+  | lowHigh lo hi extra =>
+    simp only at h
+    obtain ⟨y, hy1, hy2⟩ := mapM_except_getElem _ _ _ h ax (by simpa using hax)
+    simp only [List.getElem_range] at hy1
+    exact ⟨y, hy2, lowHighBC_consistent _ _ _ _ _ hy1⟩
+  | dict d =>
+    simp only [bind, Except.bind] at h
+    split at h
+    · cases h
+    · obtain ⟨y, hy1, hy2⟩ := mapM_except_getElem _ _ _ h ax (by simpa using hax)
+      simp only [List.getElem_range] at hy1
+      exact ⟨y, hy2, axisOfSides_consistent _ _ _ _ hy1⟩
+  | list l =>
+    simp only at h
+    split_ifs at h with h1 h2
+    · obtain ⟨y, hy1, hy2⟩ := mapM_except_getElem _ _ _ h ax (by simpa using hax)
+      simp only [List.getElem_range] at hy1
+      refine ⟨y, hy2, ?_⟩
+      split at hy1
+      · exact axisOfData_consistent _ _ _ hy1
+      · cases hy1
+    · split at h
+      · simp only [bind, Except.bind, pure, Except.pure] at h
+        split at h
+        · cases h
+        · rename_i y hy
+          cases h
+          have : ax = 0 := by have := h2.1; omega
+          subst this
+          exact ⟨y, by simp, axisOfSides_consistent _ _ _ _ hy⟩
+      · cases h
 
 /-- every alias denotes the class the documentation lists (finite table) -/
 theorem alias_table_classes :
@@ -555,7 +1106,23 @@ theorem alias_table_classes :
     kindOf "periodic" = none := by decide
 
 example : parse ⟨["x", "y"], [], [("left", 0, false), ("right", 0, true)], [false, true]⟩
-    (.dict [("*", .named "value" 0), ("left", .named "neumann" 1), ("y", .periodic)])
+    (.dict [("*", .one (.named "value" 0)), ("left", .one (.named "neumann" 1)), ("y", .one .periodic)])
     = .ok [.pair (.neumann, 1) (.dirichlet, 0), .periodic] := by decide
+
+/-- the low/high dictionary, a two-element sequence, an ignored unknown key and an ignored falsy value -/
+example : parse ⟨["x", "y"], [], [("left", 0, false), ("right", 0, true)], [false, false]⟩
+    (.dict [("x", .lowHigh (some (.named "value" 1)) (some (.named "neumann" 2)) false),
+            ("y", .seq [.named "mixed" 3, .named "curvature" 4]), ("z", .one (.named "value" 5)),
+            ("right", .seq [])])
+    = .ok [.pair (.dirichlet, 1) (.neumann, 2), .pair (.mixed, 3) (.curvature, 4)] := by decide
+
+/-- legacy list format: one entry per axis; two identical conditions are reduced to one -/
+example : parse ⟨["x", "y"], [], [], [true, false]⟩
+    (.list [.seq [.periodic, .periodic], .lowHigh (some (.named "value" 1)) (some (.named "value" 2)) false])
+    = .ok [.periodic, .pair (.dirichlet, 1) (.dirichlet, 2)] := by decide
+
+/-- the same two-element sequence written under an axis key is NOT reduced -/
+example : parse ⟨["x"], [], [], [true]⟩ (.dict [("x", .seq [.periodic, .periodic])])
+    = .error .bcdata := by decide
 
 end PdeVerif.BCParse
